@@ -609,6 +609,7 @@ func (in *inst) sqlYield(c *astutil.Cursor, s ast.Stmt) {
 		return
 	}
 	found := false
+	opens := false // the statement opens a database handle (sql.Open)
 	holds := false // the statement's result holds a database connection (*sql.Rows, *sql.Tx)
 	for _, h := range headerExprs(s) {
 		if h == nil || isNilNode(h) {
@@ -625,6 +626,13 @@ func (in *inst) sqlYield(c *astutil.Cursor, s ast.Stmt) {
 				sel, ok := x.Fun.(*ast.SelectorExpr)
 				if !ok {
 					return true
+				}
+				if id, ok := sel.X.(*ast.Ident); ok && sel.Sel.Name == "Open" {
+					if pn, ok := in.info.Uses[id].(*types.PkgName); ok && pn.Imported().Path() == "database/sql" {
+						// sql.Open: the handle (and the connections it opens) belongs to the process image
+						opens = true
+						return false
+					}
 				}
 				sl, ok := in.info.Selections[sel]
 				if !ok || sl.Kind() != types.MethodVal {
@@ -647,6 +655,11 @@ func (in *inst) sqlYield(c *astutil.Cursor, s ast.Stmt) {
 			}
 			return true
 		})
+	}
+	if opens {
+		if as, ok := s.(*ast.AssignStmt); ok && len(as.Lhs) >= 1 && len(as.Rhs) == 1 {
+			c.InsertAfter(&ast.ExprStmt{X: in.call("TrackSQL", as.Lhs[0])})
+		}
 	}
 	if found {
 		st.accesses++
